@@ -50,6 +50,22 @@ pub fn budget(prop: &str, tier: Tier) -> u64 {
 }
 
 pub fn gen_case(prop: &str, seed: u64, index: u64, tier: Tier) -> Case {
+    let mut case = gen_case_inner(prop, seed, index, tier);
+    // swarm knob shared by every engine: the console. Most runs are quiet; a sixth of the cases
+    // print progress (Normal / Verbose), half of those to a stderr on which every write fails.
+    let mut rng = rng_for(seed, prop, index, "console");
+    if rng.chance(1, 6) {
+        let console = 1 + rng.below(4) as u8;
+        for op in case.ops.iter_mut() {
+            if let Op::Run { cfg, .. } = op {
+                cfg.console = console;
+            }
+        }
+    }
+    case
+}
+
+fn gen_case_inner(prop: &str, seed: u64, index: u64, tier: Tier) -> Case {
     match prop {
         "C02" | "C03" | "C05" => graph::gen(prop, seed, index, tier),
         "C06" | "C07" | "C08" | "C09" | "C10" => history::gen(prop, seed, index, tier),
